@@ -18,7 +18,7 @@ PROP = "C12"
 CHUNK = 500
 
 TOKENS = ["#", "<", ">", "[", "]", ",", "+", "-", "$", "%", "'", "1", "7F", "X", "PCR", "E", "L"]
-SYMVALS = {"E": 300, "L": 0x2000}
+SYMVALS = {"E": 300, "L": 0x2000, "@stmt": 0x2001}     # @stmt: address of the statement under test (after L NOP at $2000)
 REPS = ["LDA", "LDX", "LDY", "STA", "STX", "STY", "NEG", "CLR", "LEAX", "LEAS", "JMP", "JSR", "CMPD", "CMPS", "ADDD", "ANDCC",
         "NOP", "SWI", "SWI2", "BRA", "LBRA", "LBNE", "BSR", "PSHS", "PULU", "TFR", "EXG"]
 REPS_DEEP = ["LDA", "LDX", "LDY", "STA", "LEAX", "JMP"]
@@ -60,6 +60,10 @@ def perturbed_texts(mnem):
         yield r
         for r2 in regs:
             yield r + "," + r2
+    # branch targets label+-n around the short-branch range (the statement sits at $2001, L at $2000)
+    for v in (0, 1, 3, 100, 124, 125, 126, 127, 128, 129, 130, 131, 132, 200, 255, 256, 300, 1000):
+        for t in ("L+{}", "L-{}", "{}+L", "L+${:X}", "L-${:X}"):
+            yield t.format(v)
     yield "A,B,X,Y,U,S,PC,CC,DP,D"
     yield "A,,B"
     yield "A,B,"
